@@ -7,7 +7,9 @@ cd $WT && git checkout -q --detach $(git -C /repo rev-parse HEAD) 2>/dev/null; g
 if [ ! -d _build ]; then cmake -G Ninja -B _build -S . -DCARES_BUILD_TESTS=ON -DCARES_BUILD_TOOLS=ON -DCMAKE_BUILD_TYPE=RelWithDebInfo >/dev/null 2>&1; fi
 cmake --build _build -j8 >/dev/null 2>&1 || { echo "BASE BUILD FAILED"; exit 2; }
 for ID in "$@"; do
-  S=/verif/seeded/$ID
+  S0=/verif/seeded/$ID
+  # the demos locate the source tree relative to themselves (<worktree>/seed/<name>/run.sh): stage a copy there
+  rm -rf $WT/seed; mkdir -p $WT/seed; cp -r $S0 $WT/seed/change; S=$WT/seed/change
   git checkout -q -- .
   cmake --build _build -j8 >/dev/null 2>&1
   bash "$S/run.sh" "$WT/_build" >/tmp/vs_demo0.out 2>&1; D0=$?
